@@ -48,7 +48,15 @@ def main():
         rc0, out0 = sh("cargo test --offline -p derive-ex-tests --test demo_seed 2>&1 | tail -5", cwd=wt)
         clean_ok = "test result: ok" in out0
         rc, out = sh("git apply %s" % os.path.abspath(patch), cwd=wt)
-        assert rc == 0, "patch does not apply: " + out
+        if rc != 0:
+            # the tree moved on since the patch was written (fix: commits): retry with fuzz and store the refreshed diff
+            rc, out = sh("patch -p1 --fuzz=3 --no-backup-if-mismatch < %s" % os.path.abspath(patch), cwd=wt)
+            assert rc == 0, "patch does not apply: " + out
+            sh("find . -name '*.orig' -delete", cwd=wt)
+            rc2, refreshed = sh("git diff -- derive-ex", cwd=wt)
+            patch = os.path.join(dst, "patch.refreshed.diff")
+            open(patch, "w").write(refreshed)
+            meta["patch_refreshed"] = True
         p, f, tail = suite(wt)
         # the suite count includes the demo; rerun demo alone for the verdict
         rc1, out1 = sh("cargo test --offline -p derive-ex-tests --test demo_seed 2>&1 | tail -8", cwd=wt)
